@@ -19,12 +19,13 @@ Int_ == [type |-> <<"integer">>]
 \* pointer of a nullable integer
 Kinds == {"string", "integer", "number", "boolean", "arrint", "obj",
           "strdate", "strtime", "strdt", "stripv4", "stripv6", "intdt", "numdate", "booltime", "sizedint",
-          "arrmin", "strmin", "arruniq", "arrintuniq"}
+          "arrmin", "strmin", "arruniq", "arrintuniq", "intmult"}
 \* "arruniq" / "arrintuniq": arrays (untyped items / integer items) that carry `uniqueItems: true`, a keyword the tool
 \* gives no meaning; the documents hold no duplicates, so it changes no verdict -- and must not make a call crash
 \* "arrmin" / "strmin": an array with minItems 1 / a string with minLength 1 and a pattern: the validators of a struct
 \* field sit behind the typed decode, and a nullable field's null must pass them (nil guards)
-FieldOnly == {"sizedint", "arrmin", "strmin", "arruniq"}   \* (an array without items cannot be a declared type)
+\* "intmult": an integer with the fractional divisor 2.5 -- still an integer: 2.5 and 7.5 are not
+FieldOnly == {"sizedint", "arrmin", "strmin", "arruniq", "intmult"}   \* (an array without items cannot be a declared type)
 FieldCtx == {"req", "opt", "nested"}       \* positions that are struct fields (value validators apply)
 AddlKinds == {"string", "integer", "number", "boolean", "strdate", "strdt", "stripv4"}   \* string formats: the collected values stay strings
 \* "map": value of a property-less object with typed additionalProperties (a Go map); "maparr": element of an array
@@ -49,19 +50,20 @@ LeafOf(k) ==
     [] k = "numdate" -> [type |-> <<"number">>, format |-> "date"]
     [] k = "booltime" -> [type |-> <<"boolean">>, format |-> "time"]
     [] k = "sizedint" -> ("type" :> <<"integer">>) @@ ("minimum" :> JNum(4)) @@ ("maximum" :> JNum(160))
+    [] k = "intmult" -> ("type" :> <<"integer">>) @@ ("multipleOf" :> 10)
     [] k = "arrmin"  -> [type |-> <<"array">>, items |-> Int_, minItems |-> 1]
     [] k = "arruniq" -> [type |-> <<"array">>, ignored |-> <<"uniqueItems", "$comment">>]
     [] k = "arrintuniq" -> [type |-> <<"array">>, items |-> Int_, ignored |-> <<"uniqueItems", "readOnly">>]
     [] k = "strmin"  -> [type |-> <<"string">>, minLength |-> 1, pattern |-> "p_a"]
 
-Values == << JNull, JBool(TRUE), JBool(FALSE), JNum(0), JNum(4), JNum(2), JNum(-12),
+Values == << JNull, JBool(TRUE), JBool(FALSE), JNum(0), JNum(4), JNum(2), JNum(-12), JNum(10), JNum(30), JNum(20),
              JStr(<<>>), JStr(<<"a">>), JFmt("date"), JFmt("time"), JFmt("date-time"), JFmt("ipv4"), JFmt("ipv6"),
              JArr(<<>>), JArr(<<JNum(0)>>), JArr(<<JStr(<<"a">>)>>), JArr(<<JNum(2)>>),
              JArr(<<JObj(<<KV("k", JNum(0))>>)>>), JArr(<<JNum(0), JArr(<<JNum(4)>>)>>),
              JObj(<<>>), JObj(<<KV("k", JNum(0))>>), JObj(<<KV("k", JStr(<<"a">>))>>) >>
 
 Wrap(x) == JObj(<<KV("x", x)>>)
-Valid0(k) == CASE k \in {"string", "strmin"} -> JStr(<<"a">>) [] k \in {"integer", "number", "intdt", "numdate", "sizedint"} -> JNum(4)
+Valid0(k) == CASE k \in {"string", "strmin"} -> JStr(<<"a">>) [] k \in {"integer", "number", "intdt", "numdate", "sizedint"} -> JNum(4) [] k = "intmult" -> JNum(20)
                [] k \in {"boolean", "booltime"} -> JBool(TRUE) [] k \in {"arrint", "arrmin", "arruniq", "arrintuniq"} -> JArr(<<JNum(0)>>)
                [] k = "obj" -> JObj(<<KV("k", JNum(0))>>)
                [] k = "strdate" -> JFmt("date") [] k = "strtime" -> JFmt("time") [] k = "strdt" -> JFmt("date-time")
@@ -123,7 +125,7 @@ ImplAccepts(unit, d, D) ==
        ELSE IF Main(leaf) = "string" /\ "AddlValuesTypedOnly" \in D THEN v.t \in {"str", "fmt"}
        ELSE ImplValue(<<>>, leaf, v, D)
   ELSE /\ ImplValue(<<>>, leaf, v, D)
-       /\ (unit.kind \in {"sizedint", "strmin"} => LeafOK(leaf, v, D))      \* numericValidator / stringValidator of the field
+       /\ (unit.kind \in {"sizedint", "strmin", "intmult"} => LeafOK(leaf, v, D))      \* numericValidator / stringValidator of the field
        /\ (unit.kind = "arrmin" => (v.t # "arr" \/ Len(v.a) >= 1))          \* arrayValidator behind its nil guard
 
 RefVerdict(unit, d)    == Valid(unit.defs, unit.schema, d, {}, "decl", NoLim)
